@@ -2,7 +2,7 @@
    Only statements, `exact`, Print Assumptions and non-vacuity Examples live here.
    All definitions are those generated from /repo/src/picosvg/svg_transform.py. *)
 From Coq Require Import ZArith Reals Lra List Bool String.
-From Pico Require Import Num PyStr G_geom G_transform E1_affine.
+From Pico Require Import Num PyStr Lex G_geom G_transform TransformParse E1_affine E1_viewport E1_tfparse.
 Import ListNotations.
 Local Open Scope R_scope.
 
@@ -51,6 +51,79 @@ Theorem C11_inverse_degenerate (A : Aff) :
   Affine2D_is_degenerate ROps A = true -> Affine2D_inverse ROps A = Affine2D_degenerate ROps.
 Proof. exact (inverse_degenerate A). Qed.
 Print Assumptions C11_inverse_left.
+
+(* a transform attribute denotes the product of its listed operations' SVG matrices, in order
+   (angles in degrees, optional arguments defaulted), for operation lists of any length *)
+Theorem C11_transform_list_is_product ops (t M : Aff) :
+  apply_ops (N:=ROps) RMath t ops = Ok M ->
+  exists ms, map (fun oa => op_matrix (fst oa) (snd oa)) ops = map Some ms /\ M = fold_left matmul ms t.
+Proof. exact (apply_ops_is_product ops t M). Qed.
+Theorem C11_product_maps_last_first ms (t : Aff) p :
+  mapP (fold_left matmul ms t) p = mapP t (fold_right (fun m q => mapP m q) p ms).
+Proof. exact (product_maps ms t p). Qed.
+Print Assumptions C11_transform_list_is_product.
+
+(* serialising then re-reading a transform returns the same matrix (operation level;
+   the character level is covered by the string correspondence) *)
+Theorem C11_tostring_fromstring (A : Aff) :
+  apply_ops (N:=ROps) RMath ident [tostring_op A] = Ok A.
+Proof. exact (tostring_fromstring_ops A). Qed.
+
+(* viewport mapping: preserveAspectRatio align x meet|slice is the SVG 1.1 §7.8 transform *)
+Theorem C11_viewport_aligned (src dst : Rct) xa ya slice :
+  Rect_w src <> 0 -> Rect_h src <> 0 -> Rect_w dst <> 0 -> Rect_h dst <> 0 ->
+  Affine2D_rect_to_rect ROps src dst (par_string xa ya slice) = Ok (spec_viewport src dst xa ya slice).
+Proof. exact (rect_to_rect_aligned src dst xa ya slice). Qed.
+Theorem C11_viewport_default_meet (src dst : Rct) xa ya :
+  Rect_w src <> 0 -> Rect_h src <> 0 -> Rect_w dst <> 0 -> Rect_h dst <> 0 ->
+  Affine2D_rect_to_rect ROps src dst (align_name xa ya) = Ok (spec_viewport src dst xa ya false).
+Proof. exact (rect_to_rect_default_is_meet src dst xa ya). Qed.
+Theorem C11_viewport_none (src dst : Rct) :
+  Rect_w src <> 0 -> Rect_h src <> 0 -> Rect_w dst <> 0 -> Rect_h dst <> 0 ->
+  Affine2D_rect_to_rect ROps src dst "none" =
+  Ok (mkA (Rect_w dst / Rect_w src) 0 0 (Rect_h dst / Rect_h src)
+          (Rect_x dst - Rect_x src * (Rect_w dst / Rect_w src))
+          (Rect_y dst - Rect_y src * (Rect_h dst / Rect_h src))).
+Proof. exact (rect_to_rect_none src dst). Qed.
+Theorem C11_meet_places_source_inside (src dst : Rct) xa ya :
+  0 < Rect_w src -> 0 < Rect_h src -> 0 < Rect_w dst -> 0 < Rect_h dst ->
+  let s := Rmin (Rect_w dst / Rect_w src) (Rect_h dst / Rect_h src) in
+  Affine2D_a (spec_viewport src dst xa ya false) = s /\ Affine2D_d (spec_viewport src dst xa ya false) = s /\
+  (Rect_x dst <= img_lo xa (Rect_x dst) (Rect_w dst) (Rect_x src) (Rect_w src) s /\
+   img_hi xa (Rect_x dst) (Rect_w dst) (Rect_x src) (Rect_w src) s <= Rect_x dst + Rect_w dst) /\
+  (Rect_y dst <= img_lo ya (Rect_y dst) (Rect_h dst) (Rect_y src) (Rect_h src) s /\
+   img_hi ya (Rect_y dst) (Rect_h dst) (Rect_y src) (Rect_h src) s <= Rect_y dst + Rect_h dst).
+Proof. exact (viewport_meet_inside src dst xa ya). Qed.
+Theorem C11_slice_covers_destination (src dst : Rct) xa ya :
+  0 < Rect_w src -> 0 < Rect_h src ->
+  let s := Rmax (Rect_w dst / Rect_w src) (Rect_h dst / Rect_h src) in
+  Affine2D_a (spec_viewport src dst xa ya true) = s /\ Affine2D_d (spec_viewport src dst xa ya true) = s /\
+  (img_lo xa (Rect_x dst) (Rect_w dst) (Rect_x src) (Rect_w src) s <= Rect_x dst /\
+   Rect_x dst + Rect_w dst <= img_hi xa (Rect_x dst) (Rect_w dst) (Rect_x src) (Rect_w src) s) /\
+  (img_lo ya (Rect_y dst) (Rect_h dst) (Rect_y src) (Rect_h src) s <= Rect_y dst /\
+   Rect_y dst + Rect_h dst <= img_hi ya (Rect_y dst) (Rect_h dst) (Rect_y src) (Rect_h src) s).
+Proof. exact (viewport_slice_covers src dst xa ya). Qed.
+Theorem C11_alignment_edges d0 dlen s0 slen s :
+  img_lo AMin d0 dlen s0 slen s = d0 /\ img_hi AMax d0 dlen s0 slen s = d0 + dlen /\
+  (img_lo AMid d0 dlen s0 slen s + img_hi AMid d0 dlen s0 slen s) / 2 = d0 + dlen / 2.
+Proof. exact (conj (align_min d0 dlen s0 slen s) (conj (align_max d0 dlen s0 slen s) (align_mid d0 dlen s0 slen s))). Qed.
+Print Assumptions C11_viewport_aligned.
+
+(* translation decomposition: a normal return gives a pure translation and the 2x2 part that
+   recompose within the code's own 1e-4 self-check; and the algebra is exact when a <> 0 *)
+Theorem C11_decompose_translation (A T L : Aff) :
+  Affine2D_decompose_translation ROps A = Ok (T, L) ->
+  L = mkA (Affine2D_a A) (Affine2D_b A) (Affine2D_c A) (Affine2D_d A) 0 0 /\
+  (exists x y, T = Affine2D_translate ROps ident x y) /\
+  Affine2D_almost_equals ROps A (compose_ltr [T; L]) (1 * Rpow10 (-4)) = true.
+Proof. exact (decompose_translation_parts A T L). Qed.
+Theorem C11_decompose_translation_exact (a b c d e f : R) :
+  a <> 0 -> a * d - b * c <> 0 ->
+  let y' := (f - e * b / a) / (d - b * c / a) in
+  let x' := (e - c * y') / a in
+  matmul (mkA a b c d 0 0) (mkA 1 0 0 1 x' y') = mkA a b c d e f.
+Proof. exact (decompose_translation_exact a b c d e f). Qed.
+Print Assumptions C11_decompose_translation.
 
 (* non-vacuity: a concrete non-degenerate, non-identity matrix *)
 Example C11_nonvacuous : Affine2D_is_degenerate ROps (mkA 2 0 1 3 5 7) = false.
